@@ -656,6 +656,11 @@ func (v Value) Equals(b Value) bool {
 		return (b.t == TypeNil && v.value == nil) || v.value == b.value
 	case v.t == TypeNil && b.t == TypeNil:
 		return true
+	case v.t == TypeObject: // a host object (an error value, ...) equals itself, and nil only when it is nil
+		if b.t == TypeNil {
+			return v.value == nil
+		}
+		return b.t == TypeObject && sameObject(v.value, b.value)
 	case v.t.base() == TypeSlice && b.t == TypeNil:
 		return v.value == nil
 	case v.t.base() == TypeMap && b.t == TypeNil:
@@ -665,6 +670,17 @@ func (v Value) Equals(b Value) bool {
 	}
 }
 func (v Value) opEq(b Value) Value { return Bool(v.Equals(b)) }
+
+// sameObject compares two host objects as Go compares interface values; objects of an uncomparable type are
+// never equal (comparing them would panic).
+func sameObject(a, b Object) (eq bool) {
+	defer func() {
+		if recover() != nil {
+			eq = false
+		}
+	}()
+	return a == b
+}
 
 func (v Value) convert(t Type) (res Value) {
 	switch t {
